@@ -248,7 +248,9 @@ func place(cm *callM) func(capnp.Struct) error {
 
 func (r *run) pickFlags() int {
 	s := r.s
-	switch s.Choice("behaviour", 8) {
+	switch s.Choice("behaviour", 9) {
+	case 8: // never acknowledges and runs until cancelled: everything behind it waits at the gate
+		return fLong
 	case 0:
 		return 0
 	case 1:
@@ -438,6 +440,21 @@ func (r *run) workerTask(id int, client target, nops int) {
 			p.returnSeq = s.Seq()
 			s.Logf("task %d PipelineSend %d returned", id, p.id)
 			out = append(out, p)
+		case op == 5 && s.Choice("cancel-whose", 3) == 0: // cancel a call another task is still submitting
+			// (SendCall / RecvCall block while the call waits for the admission gate or for a free
+			// slot: only somebody else can cancel it there)
+			var cands []*callM
+			for cid := 1; cid <= r.nextID; cid++ {
+				if c := r.calls[cid]; c != nil && c.owner != id && c.invokeSeq > 0 && c.returnSeq == 0 && !c.cancelled && c.pipedOn == nil {
+					cands = append(cands, c)
+				}
+			}
+			if len(cands) > 0 {
+				c := cands[s.Choice("cancel-submitting", len(cands))]
+				c.cancelled = true
+				c.cancel()
+				s.Fault("ctx_cancel_while_submitting")
+			}
 		case op == 5: // cancel the context of an outstanding call
 			if len(out) > 0 {
 				cm := out[s.Choice("cancel-which", len(out))]
